@@ -245,8 +245,8 @@ filter except those that observe the Go representation (`reprFilters`: the value
 filters `json`, `inspect`, `type`; `uniq` was one of them until `fixes/nested-drops-resolved`: `uniq_respects`)
 respect it (`filterRespects_std`: exactly, all but `sort`,
 `sort_natural` and `reprFilters`; `filterRespects_std_upto`: up to `unmodelled`, all but `reprFilters`). Drops *inside*
-containers (`d = true`) are covered for the standard OUTPUT layer (`run_stdOut_rep_independent_nested_drops` below)
-and for `uniq` (`uniqKey_repEq`), not yet for the standard comparisons and the other filter bodies. -/
+containers (`d = true`) are covered as well — the output layer, the comparisons and every filter but `sort_natural`
+(not done) and `reprFilters`: the last part of this file, `run_std_rep_independent_nested_drops`. -/
 
 /-- **C18 for the standard configuration** (partial). `allowed` says which filters are registered
 on the engine (`stdPrimsOnly allowed`; with `fun _ => true` it is `stdPrims`). Rendering any
@@ -265,9 +265,8 @@ and why (each with an evaluated counterexample below):
   `unmodelled` for more than 12 elements with ties that differ in their encoding (up to 12 elements —
   Go's insertion sort, modelled exactly — they respect the equivalence exactly:
   `sortWith_rel_short`, `sortNaturalWith_rel_short`);
-* `d = false`: the code no longer exposes drops nested in containers (the four deviations are repaired: theorems at
-  the end of this file) and the output layer respects `d = true` (`stdOut_respects t true`); the congruence of
-  `values.Equal` / `Less` / `contains` and of the filter bodies is proved for `d = false` only. -/
+* `d = false`: for `ERel true` (drops nested in containers) see `run_std_rep_independent_nested_drops` at the end of
+  this file: the same statement, without `sort_natural` in addition (its congruence is proved for `d = false` only). -/
 theorem run_std_rep_independent_partial (allowed : Bytes → Bool) (hrepr : ∀ n ∈ reprFilters, allowed n = false)
     (cfg : Cfg) (fs : FS) (fuel : Nat) (src : Bytes) (line : Nat) (env env' : Env)
     (he : ∀ x, ERel false (env.get x) (env'.get x)) :
@@ -290,7 +289,7 @@ theorem run_std_rep_independent_without_repr_filters (cfg : Cfg) (fs : FS) (fuel
   run_std_rep_independent_partial withoutRepr (fun n hn => by simp [withoutRepr, hn]) cfg fs fuel src line env env' he
 
 /-- `uniq` is covered by the theorem: it respects the equivalence (it is not a `reprFilter` any more) -/
-example : FilterRespects true (ArrF.bn "uniq") := filterRespects_std_upto _ (by decide +kernel)
+example : FilterRespects true false (ArrF.bn "uniq") := filterRespects_std_upto _ (by decide +kernel)
 example : withoutRepr (ArrF.bn "uniq") = true := by decide +kernel
 
 /-- the output layer respects the equivalence exactly (no `unmodelled` escape) -/
@@ -312,8 +311,8 @@ example : ∀ y, ERel false
 
 /-- a filter with scalar parameters (`append`: `string, string`) respects the equivalence
     whatever its body -/
-example : FilterRespects false (ArrF.bn "append") :=
-  filterRespects_of_scalar false _ (fun sg h => by
+example : FilterRespects false false (ArrF.bn "append") :=
+  filterRespects_of_scalar false false _ (fun sg h => by
     have : lookupSig (ArrF.bn "append") = some ⟨ArrF.bn "append", [.val .str, .val .str], false⟩ := by decide +kernel
     rw [this] at h; cases h; rfl)
 
@@ -354,10 +353,8 @@ example : stdPrims.contains (.mapSlice [(.array (.int .int) [.int .int 1], .nil)
 
 Since `fixes/nested-drops-resolved` the printing side of the whole-template theorem holds for the relation WITH
 drops nested in containers: `stdOut_respects t true` (`Proofs/RepEqStd.lean`; `writeChunksL_norm`, `sprintR_norm`
-for every `d`). What remains for the standard engine with `d = true` is the comparison/filter layer
-(`PrimsRespect true true stdPrims`): `values.Equal` / `Less` / `contains` and the filter bodies on values with
-nested drops, which are proved for `d = false` only (`stdPrimsOnly_respects`); `uniq` identifies elements that
-differ in nested drops already (`ArrF.uniqKey_repEq`, for every `d`). -/
+for every `d`). The comparison/filter layer with `d = true` follows at the end of this file
+(`stdPrims_respect_nested_drops`, `run_std_rep_independent_nested_drops`). -/
 
 /-- **C18 with nested drops, standard printing.** For every comparison/filter layer that respects the
 equivalence with drops nested in containers, the STANDARD output layer (`writeObject`: arrays element by element,
@@ -422,4 +419,164 @@ example :
       = .ok [[109, 97, 112, 91, 97, 58, 91, 109, 97, 112, 91, 98, 58, 49, 93, 93, 93]] ∧
     strOfRes (stdPrims.applyFilter (ArrF.bn "append") (.map .str .any [(.str [97], .slice .any [.drop (.map .str .any [(.str [98], .drop (.int .int 1))])])]) [.str []])
       = [109, 97, 112, 91, 97, 58, 91, 109, 97, 112, 91, 98, 58, 49, 93, 93, 93] := by
+  decide +kernel
+
+
+/-! ## Drops nested in containers (`d = true`): the standard comparison and filter layer
+
+Operation by operation (each decided on the model and on the real engine of /repo with a drop inside an array or a
+map against the value it yields):
+
+* `==`, `!=`, `<`, `>`, `<=`, `>=`, `contains`, `case`/`when`: respect nested drops — `values.Equal` applies `ToLiquid`
+  (which follows a chain of drops) to both operands at every depth (`Cmp.equalAux_pn_left/right`, `Cmp.opEq_prep_vrel`,
+  `Cmp.equal_prep_repEq`), `Less` orders scalars only (`Cmp.opLt_prep_vrel`), an array `contains` by `Equal`, a map
+  by its keys (`Cmp.opContains_prep_vrel`; a string haystack with a container needle is outside the model on both sides);
+* `and`/`or`/truth tests, `a[i]`, `a.first`/`last`/`size`, `m.k`, `m[k]`, the items of a loop over an array or a map,
+  ranges and loop modifiers: respect them — the result of a lookup may BE a drop, and the next use resolves it
+  (`test_rel`, `indexValue_rel`, `propertyValue_rel`, `loopItems_unw_rel`, `intOf_rel`: all for every `d`);
+* the filters `first`, `last`, `reverse`, `compact`, `concat`, `uniq`, `join`, `map`, `size`, `default`, `divided_by`
+  and every filter with scalar parameters only (the string, number and date filters: `Convert` to string prints
+  `fmt.Sprint(values.ResolveDrops(·))`): respect them (`filterRespects_std t true`). `Convert` to `[]any` passes every
+  element through `ToLiquid` (`convElems_noDrops`), so a drop that yields nil IS nil for `compact` and `join`;
+* `sort` and `sort: key` respect them since `fixes/sort-key-drops` (`ArrF.sort_respects d`, up to the `unmodelled` tie
+  order beyond 12 elements): `Less` compares through `ToLiquid`; `sortableByProperty.Less` now passes the entry
+  `m[key]` through `ToLiquid` BEFORE its nil test, and the name of the key is `fmt.Sprint(values.ResolveDrops(key))`.
+  Before that repair `sort: key` did NOT (a drop that yields nil was not sorted first; a key that is an array holding a
+  drop printed the drop's Go struct) and `sort_natural: key` did not either (the same name); the three former
+  counterexamples are theorems of the opposite statement below;
+* `sort_natural`: NOT DONE for `d = true` (`Proofs/RepEqSort.lean` proves it for `d = false`); after the repair no
+  difference is known on the real engine. It is left out of the theorem together with `json`, `inspect`, `type`
+  (`nestedDropsOpen`). -/
+
+/-- *The standard comparison and filter layer respects drops nested in containers*, on an engine without
+`sort_natural`, `json`, `inspect`, `type` (`nestedDropsOpen`): related operands (`VRel true`: the same Liquid value, any Go
+representation, drops at any depth) compare alike under `==`, `<`, `contains` and `case`/`when`, and related filter
+inputs give related results — up to `unmodelled` results (`t = true`). -/
+theorem stdPrims_respect_nested_drops (allowed : Bytes → Bool) (hopen : ∀ n ∈ nestedDropsOpen, allowed n = false) :
+    PrimsRespect true true (stdPrimsOnly allowed) :=
+  stdPrimsOnly_respects allowed (fun n _ ha => filterRespects_std_nested n (fun hn => by
+    rw [hopen n hn] at ha; cases ha))
+
+/-- every standard filter except `sort`, `sort_natural`, `json`, `inspect`, `type` respects nested drops exactly
+    (no `unmodelled` escape), whatever name is asked for -/
+theorem std_filter_respects_nested_drops (name : Bytes) (h : name ∉ openFilters) : FilterRespects false true name :=
+  filterRespects_std false true name h
+
+/-- **C18 for the standard configuration with drops nested in containers** (partial: `allowed` must exclude
+`nestedDropsOpen`). Full statement wanted: the same for `stdPrims` (every filter registered). What is missing, and why:
+* `json`, `inspect`, `type` observe the Go representation (counterexamples above; `{{ m | json }}` with
+  `m = {"a": Drop(1)}` is `{"a":{}}`);
+* NOT DONE: `sort_natural` on values with nested drops (no difference known on the real engine after
+  `fixes/sort-key-drops`; `Proofs/RepEqSort.lean` proves its congruence for `d = false`). -/
+theorem run_std_rep_independent_nested_drops_partial (allowed : Bytes → Bool) (hopen : ∀ n ∈ nestedDropsOpen, allowed n = false)
+    (cfg : Cfg) (fs : FS) (fuel : Nat) (src : Bytes) (line : Nat) (env env' : Env)
+    (he : ∀ x, ERel true (env.get x) (env'.get x)) :
+    RunAgree true (run (stdPrimsOnly allowed) stdOut cfg fs fuel src line env)
+      (run (stdPrimsOnly allowed) stdOut cfg fs fuel src line env') :=
+  run_rel _ _ cfg fs fuel (stdPrims_respect_nested_drops allowed hopen) (stdOut_respects true true) src line he
+
+/-- **C18 with nested drops, for the standard engine without `sort_natural`, `json`, `inspect`, `type`**
+(`withoutNestedOpen`): no hypothesis left. Every template, every configuration, file system and include depth: two
+environments whose bindings have the same Liquid values in any Go representation — typed or generic slices and maps,
+fixed arrays, drops (and drops that yield drops) at ANY depth of arrays and maps, drops and pointers around a binding
+— render to agreeing results (`RunAgree true`: the same output or the same error, or one of the two runs is outside
+the model). -/
+theorem run_std_rep_independent_nested_drops (cfg : Cfg) (fs : FS) (fuel : Nat) (src : Bytes) (line : Nat) (env env' : Env)
+    (he : ∀ x, ERel true (env.get x) (env'.get x)) :
+    RunAgree true (run (stdPrimsOnly withoutNestedOpen) stdOut cfg fs fuel src line env)
+      (run (stdPrimsOnly withoutNestedOpen) stdOut cfg fs fuel src line env') :=
+  run_std_rep_independent_nested_drops_partial withoutNestedOpen (fun n hn => by simp [withoutNestedOpen, hn]) cfg fs fuel src line env env' he
+
+/-- the same with the hypothesis spelled on values: bindings related by `VRel true`, none of them the renderer's own
+    `forloop` record (which no caller can build) -/
+theorem run_std_rep_independent_nested_drops_vrel (cfg : Cfg) (fs : FS) (fuel : Nat) (src : Bytes) (line : Nat) (env env' : Env)
+    (he : ∀ x, VRel true (env.get x) (env'.get x)) (hr : ∀ x, isRec (env.get x) = false) (hr' : ∀ x, isRec (env'.get x) = false) :
+    RunAgree true (run (stdPrimsOnly withoutNestedOpen) stdOut cfg fs fuel src line env)
+      (run (stdPrimsOnly withoutNestedOpen) stdOut cfg fs fuel src line env') :=
+  run_std_rep_independent_nested_drops cfg fs fuel src line env env'
+    (fun x => binding_related_of_unwrap (he x) (hr x) (hr' x))
+
+/-- `sort`, `uniq`, `compact`, `join`, `map`, `first` are on that engine; `sort_natural` is not -/
+example : withoutNestedOpen (ArrF.bn "sort") = true ∧ withoutNestedOpen (ArrF.bn "uniq") = true ∧
+    withoutNestedOpen (ArrF.bn "compact") = true ∧ withoutNestedOpen (ArrF.bn "join") = true ∧
+    withoutNestedOpen (ArrF.bn "map") = true ∧ withoutNestedOpen (ArrF.bn "first") = true ∧
+    withoutNestedOpen (ArrF.bn "sort_natural") = false := by
+  decide +kernel
+
+/-- a concrete instance: `m` is a map holding a typed array that holds a drop of a drop — against the generic map of
+    the generic array of the value —, template `{{ m.a | join }}{% if m.a contains 1 %}y{% endif %}` -/
+example (cfg : Cfg) (fs : FS) (fuel : Nat) :
+    RunAgree true
+      (run (stdPrimsOnly withoutNestedOpen) stdOut cfg fs fuel
+        [123, 123, 32, 109, 46, 97, 32, 124, 32, 106, 111, 105, 110, 32, 125, 125, 123, 37, 32, 105, 102, 32, 109, 46, 97, 32, 99, 111, 110, 116, 97, 105, 110, 115, 32, 49, 32, 37, 125, 121, 123, 37, 32, 101, 110, 100, 105, 102, 32, 37, 125] 1
+        [([109], .map .str (.slice .any) [(.str [97], .array .any [.drop (.drop (.int .int 1)), .int .i8 2])])])
+      (run (stdPrimsOnly withoutNestedOpen) stdOut cfg fs fuel
+        [123, 123, 32, 109, 46, 97, 32, 124, 32, 106, 111, 105, 110, 32, 125, 125, 123, 37, 32, 105, 102, 32, 109, 46, 97, 32, 99, 111, 110, 116, 97, 105, 110, 115, 32, 49, 32, 37, 125, 121, 123, 37, 32, 101, 110, 100, 105, 102, 32, 37, 125] 1
+        [([109], .map .str .any [(.str [97], .slice .any [.int .int 1, .int .i8 2])])]) := by
+  refine run_std_rep_independent_nested_drops cfg fs fuel _ 1 _ _ (fun y => ?_)
+  by_cases h : y = [109]
+  · subst h
+    exact binding_related_of_repEq (by simp [Env.get, RepEq, norm, normList, normKVs, dropRigid, isRec, cyclesOf])
+  · have : ([109] == y) = false := by simp [Ne.symm h]
+    simp [Env.get, List.find?, this, ERel.refl]
+
+/-- the comparison layer on values with nested drops: `==` through a drop of a drop in an array in a map, `contains`
+    with an array needle that holds a drop, `compact` of an array holding a drop that yields nil -/
+example :
+    stdPrims.equal (.map .str .any [(.str [97], .slice .any [.drop (.drop (.int .int 1))])])
+        (.map .str .any [(.str [97], .slice (.int .int) [.int .int 1])]) = .ok true ∧
+    stdPrims.contains (.slice .any [.slice .any [.int .int 1]]) (.slice .any [.drop (.int .int 1)]) = .ok true ∧
+    lenOfRes (stdPrims.applyFilter (ArrF.bn "compact") (.slice .any [.int .int 1, .drop .nil, .int .int 2]) []) = 2 := by
+  decide +kernel
+
+/-! ### `sort: key` and `sort_natural: key`: the two deviations repaired by `fixes/sort-key-drops` (DESIGN 7.1c)
+
+Each was an evaluated counterexample here (the two renders differ, confirmed on the real engine of e3953ba); each is
+now the opposite statement, evaluated on the same template and the same two bindings. -/
+
+/-- *`sort` by a key: an entry that is a drop yielding nil is nil.* Template `{{ a | sort: "k" | map: "n" | join }}` with
+`a = [{"k": 1, "n": "x"}, {"k": Drop(nil), "n": "y"}]` renders `y x` (nil first), as with `{"k": nil, "n": "y"}` (it
+rendered `x y`): `sortableByProperty.Less` passes the entry through `ToLiquid` before the nil test. -/
+theorem sort_key_drop_nil_repaired :
+    strOfRes ((stdPrims.applyFilter (ArrF.bn "sort") (.slice .any [
+        .map .str .any [(.str [107], .int .int 1), (.str [110], .str [120])],
+        .map .str .any [(.str [107], .drop .nil), (.str [110], .str [121])]]) [.str [107]]).bind fun s =>
+      (stdPrims.applyFilter (ArrF.bn "map") s [.str [110]]).bind fun m => stdPrims.applyFilter (ArrF.bn "join") m [])
+      = [121, 32, 120] ∧
+    strOfRes ((stdPrims.applyFilter (ArrF.bn "sort") (.slice .any [
+        .map .str .any [(.str [107], .int .int 1), (.str [110], .str [120])],
+        .map .str .any [(.str [107], .nil), (.str [110], .str [121])]]) [.str [107]]).bind fun s =>
+      (stdPrims.applyFilter (ArrF.bn "map") s [.str [110]]).bind fun m => stdPrims.applyFilter (ArrF.bn "join") m [])
+      = [121, 32, 120] := by
+  decide +kernel
+
+/-- *`sort` names its key by `fmt.Sprint(values.ResolveDrops(key))`.* Template `{{ a | sort: k | map: "n" | join }}` with
+`a = [{"[1]": 2, "n": "x"}, {"[1]": 1, "n": "y"}]`: with `k = [Drop(1)]` it renders `y x`, as with `k = [1]` (it rendered
+`x y`: the key was named `[{1}]`). -/
+theorem sort_key_name_drops_repaired :
+    strOfRes ((stdPrims.applyFilter (ArrF.bn "sort") (.slice .any [
+        .map .str .any [(.str [91, 49, 93], .int .int 2), (.str [110], .str [120])],
+        .map .str .any [(.str [91, 49, 93], .int .int 1), (.str [110], .str [121])]]) [.slice .any [.drop (.int .int 1)]]).bind fun s =>
+      (stdPrims.applyFilter (ArrF.bn "map") s [.str [110]]).bind fun m => stdPrims.applyFilter (ArrF.bn "join") m [])
+      = [121, 32, 120] ∧
+    strOfRes ((stdPrims.applyFilter (ArrF.bn "sort") (.slice .any [
+        .map .str .any [(.str [91, 49, 93], .int .int 2), (.str [110], .str [120])],
+        .map .str .any [(.str [91, 49, 93], .int .int 1), (.str [110], .str [121])]]) [.slice .any [.int .int 1]]).bind fun s =>
+      (stdPrims.applyFilter (ArrF.bn "map") s [.str [110]]).bind fun m => stdPrims.applyFilter (ArrF.bn "join") m [])
+      = [121, 32, 120] := by
+  decide +kernel
+
+/-- *`sort_natural` likewise.* Template `{{ a | sort_natural: k | map: "n" | join }}` with
+`a = [{"[1]": "b", "n": "x"}, {"[1]": "a", "n": "y"}]`: with `k = [Drop(1)]` it renders `y x`, as with `k = [1]` (it rendered `x y`). -/
+theorem sort_natural_key_name_drops_repaired :
+    strOfRes ((stdPrims.applyFilter (ArrF.bn "sort_natural") (.slice .any [
+        .map .str .any [(.str [91, 49, 93], .str [98]), (.str [110], .str [120])],
+        .map .str .any [(.str [91, 49, 93], .str [97]), (.str [110], .str [121])]]) [.slice .any [.drop (.int .int 1)]]).bind fun s =>
+      (stdPrims.applyFilter (ArrF.bn "map") s [.str [110]]).bind fun m => stdPrims.applyFilter (ArrF.bn "join") m [])
+      = [121, 32, 120] ∧
+    strOfRes ((stdPrims.applyFilter (ArrF.bn "sort_natural") (.slice .any [
+        .map .str .any [(.str [91, 49, 93], .str [98]), (.str [110], .str [120])],
+        .map .str .any [(.str [91, 49, 93], .str [97]), (.str [110], .str [121])]]) [.slice .any [.int .int 1]]).bind fun s =>
+      (stdPrims.applyFilter (ArrF.bn "map") s [.str [110]]).bind fun m => stdPrims.applyFilter (ArrF.bn "join") m [])
+      = [121, 32, 120] := by
   decide +kernel
